@@ -300,6 +300,20 @@ def callback_table_cxx(ctx, crate, cx):
         want = ["provider"] + ["bridge_" + f for f in rust_fields[1:]]
         ctx.ob(R, "resolvo::solve", "initialiser-order==field-order", names == want, "cpp/include/resolvo.h",
                "initialiser lists %s" % names if names != want else "data + 13 bridge functions in the field order of the Rust struct")
+    # the table (and anything else computed from the arguments) is rebuilt on every call: a `static` / `thread_local` local
+    # initialised from a parameter is initialised once, by the first call, and silently serves every later provider
+    nvars = 0
+    for group in cx["ast"].values():
+        for o in group:
+            for fn in cxx.walk(o, lambda n: n.get("kind") in ("FunctionDecl", "CXXMethodDecl")):
+                params = {p_.get("name") for p_ in cxx.walk(fn, lambda n: n.get("kind") == "ParmVarDecl")}
+                for v in cxx.walk(fn, lambda n: n.get("kind") == "VarDecl"):
+                    nvars += 1
+                    if v.get("storageClass") == "static" or v.get("tls"):
+                        used = sorted(x for x in set(refs(v)) if x in params)
+                        ctx.ob(R, "resolvo::" + str(fn.get("name")), "no-static-local-initialised-from-arguments:%s" % v.get("name"),
+                               not used, "cpp/include", "a local with static storage duration is initialised from %s: only the first call's value is ever used" % ", ".join(used) if used else "static local does not depend on the arguments")
+    ctx.floor(R, "local variables in the header functions", nvars, 1)
     # the call passes &bridge, &problem, &error, &result in that order
     calls = [n for n in cxx.walk(solve[0], lambda n: n.get("kind") == "CallExpr") if "resolvo_solve" in refs(n)]
     if calls:
@@ -743,11 +757,12 @@ def relocation_guard(ctx, crate, crs):
         if not b.key.endswith("::from_iter") or "vector::Vector" not in b.key:
             continue
         guards = [s2 for i, j, s2 in b.assigns() if s2["r"]["k"] == "agg" and s2["r"].get("variant") == "UnShared"]
-        if not guards:
+        moves = [(i, t) for i, t in b.calls() if t.get("f") and t["f"]["name"] in ("read", "copy_nonoverlapping", "copy", "read_unaligned")]
+        if not guards and not moves:
             continue
         n += 1
-        moves = [(i, t) for i, t in b.calls() if t.get("f") and t["f"]["name"] in ("read", "copy_nonoverlapping", "copy", "read_unaligned")]
         marks = 0
+        zeroed = 0
         for i, j, s2 in b.assigns():
             pl = s2["p"]
             d = b.origin({"k": "copy", "p": pl}) if pl.get("p") else None
@@ -756,9 +771,20 @@ def relocation_guard(ctx, crate, crs):
             pr = d.get("proj", [])
             if any(isinstance(e, dict) and e.get("as") == "UnShared" for e in pr) and any(isinstance(e, dict) and e.get("f") == 1 for e in pr):
                 marks += 1
+            if any(isinstance(e, dict) and e.get("n") == "size" for e in pr) and s2["r"]["k"] == "use" and \
+                    (b.origin(s2["r"]["o"]).get("c") or {}).get("v") in (0, "0"):
+                zeroed += 1
         forgets = [i for i, t in b.calls() if t.get("f") and t["f"]["name"] in ("forget", "into_raw")]
-        ctx.ob(R, b.key, "relocated-elements-are-marked-moved", (not moves) or marks >= 1 or bool(forgets), b.loc(),
-               "elements moved out of the old buffer are accounted for in the guard that frees it (moves: %d, writes to the guard's begin: %d)" % (len(moves), marks))
+        # without a guard the old buffer must be released without destroying its (moved-out) elements: plain dealloc, or its
+        # size is set to zero before an element-dropping release
+        drops = [t["f"]["name"] for i, t in b.calls() if t.get("f") and t["f"]["name"] in ("drop_inner", "drop_in_place", "drop")
+                 and not b.blocks[i].get("cleanup")]
+        if guards:
+            ok = (not moves) or marks >= 1 or bool(forgets)
+        else:
+            ok = (not drops) or zeroed >= 1 or bool(forgets)
+        ctx.ob(R, b.key, "relocated-elements-are-marked-moved", ok, b.loc(),
+               "elements moved out of the old buffer are accounted for by whatever frees it (moves: %d, guard: %s, writes to the guard's begin: %d, element-dropping releases: %s)" % (len(moves), bool(guards), marks, ",".join(drops) or "none"))
     ctx.floor(R, "growth path of Vector::from_iter", n, 1)
 
 
